@@ -5,7 +5,7 @@ from lxml import etree
 
 
 class PNode:
-    __slots__ = ("id", "kind", "tag", "attrs", "text", "tail", "kids")
+    __slots__ = ("id", "kind", "tag", "attrs", "text", "tail", "kids", "nsmap")
 
     def __init__(self, kind="e", tag="a", attrs=None, text=None, tail=None, kids=None, id=0):
         self.id = id
@@ -15,9 +15,12 @@ class PNode:
         self.text = text
         self.tail = tail
         self.kids = list(kids or [])
+        self.nsmap = None  # root only: prefix -> uri declared on the root element
 
     def copy(self):
-        return PNode(self.kind, self.tag, list(self.attrs), self.text, self.tail, [k.copy() for k in self.kids], self.id)
+        c = PNode(self.kind, self.tag, list(self.attrs), self.text, self.tail, [k.copy() for k in self.kids], self.id)
+        c.nsmap = dict(self.nsmap) if self.nsmap else None
+        return c
 
     def iter(self):
         yield self
@@ -78,7 +81,10 @@ def from_lxml(el, start=0, is_root=True):
         n.kids = [conv(c, False) for c in e]
         return n
 
-    return conv(el, is_root).number(start)
+    out = conv(el, is_root).number(start)
+    if is_root and el.nsmap:
+        out.nsmap = dict(el.nsmap)
+    return out
 
 
 def to_lxml(p, nsmap=None):
@@ -90,7 +96,7 @@ def to_lxml(p, nsmap=None):
                 parent.append(e)
         else:
             if parent is None:
-                e = etree.Element(n.tag, nsmap=nsmap)
+                e = etree.Element(n.tag, nsmap=nsmap if nsmap is not None else n.nsmap)
             else:
                 e = etree.SubElement(parent, n.tag)
             for k, v in n.attrs:
